@@ -39,7 +39,8 @@ func init() { props["C08"] = runC08 }
 // ---------------------------------------------------------------- trees
 
 type c08Node struct {
-	Kind  string // N X L R neg pct par bin
+	Keys  []string // for G: the cells of the range arguments, row-major, in argument order
+	Kind  string // N X L R G neg pct par bin
 	S     string // literal text / key
 	Spell string // for R: spelling in the formula
 	Op    string // for bin
@@ -77,6 +78,8 @@ func c08Render(n *c08Node, p int, sp bool) string {
 		return `"` + strings.ReplaceAll(n.S, `"`, `""`) + `"`
 	case "R":
 		return n.Spell
+	case "G":
+		return n.Op + "(" + n.Spell + ")"
 	case "neg":
 		return wrap(6 < p, "-"+c08Render(n.A, 6, sp))
 	case "pct":
@@ -103,6 +106,8 @@ func c08TreeEnc(n *c08Node, sb *strings.Builder) {
 		sb.WriteString(n.Kind + ":" + hx(n.S))
 	case "R":
 		sb.WriteString("R:" + hx(n.S) + ":" + hx(n.Spell))
+	case "G":
+		sb.WriteString("G:" + n.Op + ":" + hx(n.Spell) + ":" + hx(strings.Join(n.Keys, ",")))
 	case "neg", "pct", "par":
 		sb.WriteString(n.Kind)
 		c08TreeEnc(n.A, sb)
@@ -137,6 +142,11 @@ func c08TreeDec(w []string) (*c08Node, []string, bool) {
 		return &c08Node{Kind: "bin", Op: parts[1], A: a, B: b}, r2, ok2 && c08Sym[parts[1]] != ""
 	case "N", "X", "L":
 		return &c08Node{Kind: parts[0], S: c08unhx(parts[1])}, rest, true
+	case "G":
+		if len(parts) < 4 {
+			return nil, nil, false
+		}
+		return &c08Node{Kind: "G", Op: parts[1], Spell: c08unhx(parts[2]), Keys: strings.Split(c08unhx(parts[3]), ",")}, rest, true
 	case "R":
 		sp := ""
 		if len(parts) > 2 {
@@ -450,6 +460,7 @@ func c08Bin(op string, a, b c08Val) c08Val {
 }
 
 type c08Eval struct {
+	agg     func(n *c08Node) c08Val // value of an aggregate leaf (Spec or clean-tree prediction)
 	taint   map[string]string
 	env     map[string]c08Val
 	class   string // first deviation class met in post-order
@@ -496,6 +507,8 @@ func (ev *c08Eval) eval(n *c08Node) c08Val {
 		return v
 	case "par":
 		return ev.eval(n.A)
+	case "G":
+		return ev.agg(n)
 	case "neg":
 		a := ev.eval(n.A)
 		if n.A.Kind == "neg" {
@@ -557,7 +570,7 @@ func c08ExactExp(n *c08Node, v c08Val) bool {
 
 // peek evaluates without recording deviations
 func (ev *c08Eval) peek(n *c08Node) c08Val {
-	e2 := &c08Eval{env: ev.env, taint: ev.taint}
+	e2 := &c08Eval{env: ev.env, taint: ev.taint, agg: ev.agg}
 	return e2.eval(n)
 }
 
@@ -672,6 +685,8 @@ func (ev *c08Eval) classify(op string, a, b c08Val) {
 const c08Main = "Z9"
 
 type c08State struct {
+	lastRaw string
+	impl  map[string]string // raw (hook) image of every cell as the evaluator sees it
 	taint map[string]string
 	f     *xl.File
 	env   map[string]c08Val
@@ -682,7 +697,7 @@ type c08State struct {
 func c08NewState() *c08State {
 	f := xl.NewFile()
 	f.NewSheet("Sheet2")
-	return &c08State{f: f, env: map[string]c08Val{}, names: map[string]bool{}, taint: map[string]string{}}
+	return &c08State{f: f, env: map[string]c08Val{}, names: map[string]bool{}, taint: map[string]string{}, impl: map[string]string{}}
 }
 
 func c08Bits(x float64) string { return fmt.Sprintf("%016x", math.Float64bits(x)) }
@@ -828,6 +843,7 @@ func (st *c08State) formula(r *Run, opname, key string, tree *c08Node, spaced bo
 	c08TreeEnc(tree, &tb)
 	must(st.f.SetCellFormula(sheet, cell, text))
 	raw := c08Raw(st.f, sheet, cell)
+	st.lastRaw = raw
 	ev := &c08Eval{env: st.env, taint: st.taint}
 	spec := c08Top(ev.eval(tree))
 	res, errs, pan := c08Public(st.f, sheet, cell)
@@ -929,19 +945,23 @@ func (st *c08State) setCell(r *Run, key, kind, payload string) {
 	switch kind {
 	case "b":
 		st.env[key] = c08Val{K: "blank"}
+		st.impl[key] = "empty"
 	case "n":
 		u, _ := strconv.ParseUint(payload, 16, 64)
 		x := math.Float64frombits(u)
 		must(st.f.SetCellValue(sheet, cell, x))
 		st.env[key] = c08Val{K: "num", N: x}
+		st.impl[key] = "num " + payload
 		line += " " + payload
 	case "s":
 		must(st.f.SetCellValue(sheet, cell, payload))
 		st.env[key] = c08Val{K: "text", S: payload}
+		st.impl[key] = "str " + hx(payload)
 		line += " " + hx(payload)
 	case "t":
 		must(st.f.SetCellValue(sheet, cell, payload == "1"))
 		st.env[key] = c08Val{K: "bool", B: payload == "1"}
+		st.impl[key] = "bool " + payload
 		line += " " + payload
 	}
 	r.Op(line, "ok")
@@ -956,7 +976,9 @@ func (st *c08State) setCell(r *Run, key, kind, payload string) {
 
 func (st *c08State) setFormulaCell(r *Run, key string, tree *c08Node) {
 	v := st.formula(r, "", key, tree, false)
+	st.impl[key] = st.lastRaw
 	if v.K == "skip" {
+		st.impl[key] = "empty"
 		v = c08Val{K: "blank"}
 		line := "cell " + hx(key) + " b"
 		r.Op(line, "ok")
@@ -1066,63 +1088,6 @@ func c08AggSpec(fn string, cells []c08Val) c08Val {
 		}
 	}
 	return c08Num(m)
-}
-
-// aggregates over fixed ranges of the fixed workbook; the signature names the function and the
-// kinds of ignorable content present in the range
-func (st *c08State) aggregates(r *Run) {
-	ranges := []string{"A1:A1", "A1:A6", "A5:A6", "A3:A3", "A1:A3", "A1:A2", "A4:A6", "A3:A5", "A1:B2", "B1:B2", "B2:B2", "A6:A6"}
-	for _, rg := range ranges {
-		a, b, _ := strings.Cut(rg, ":")
-		c1, r1, _ := xl.CellNameToCoordinates(a)
-		c2, r2, _ := xl.CellNameToCoordinates(b)
-		var cells []c08Val
-		kinds := map[string]bool{}
-		for row := r1; row <= r2; row++ {
-			for col := c1; col <= c2; col++ {
-				name, _ := xl.CoordinatesToCellName(col, row)
-				v, ok := st.env["Sheet1!"+name]
-				if !ok {
-					v = c08Val{K: "blank"}
-				}
-				cells = append(cells, v)
-				switch {
-				case c08IsNumericText(v):
-					kinds["numeric-text"] = true
-				case v.K == "text" || v.K == "bool" || v.K == "err":
-					kinds[v.K] = true
-				}
-			}
-		}
-		var ks []string
-		for _, k := range []string{"numeric-text", "text", "bool", "err"} {
-			if kinds[k] {
-				ks = append(ks, k)
-			}
-		}
-		for _, fn := range c08AggFns {
-			text := fn + "(" + rg + ")"
-			must(st.f.SetCellFormula("Sheet1", c08Main, text))
-			res, errs, pan := c08Public(st.f, "Sheet1", c08Main)
-			spec := c08AggSpec(fn, cells)
-			r.Case("agg:"+text, true)
-			r.Stat("stream:aggregate (oracle only)")
-			ok, _ := c08Agree(spec, res, errs, pan)
-			if ok {
-				r.Stat("oracle:agree")
-				continue
-			}
-			sig := "agg:" + fn + ":non-numbers-counted"
-			switch {
-			case kinds["err"] && fn != "COUNT":
-				sig = "agg:range-error-not-propagated"
-			case fn == "PRODUCT" || fn == "MIN" || fn == "MAX":
-				sig = "agg:" + fn + ":no-numbers"
-			}
-			_ = ks
-			r.Fail(sig, fmt.Sprintf("=%s over %s: CalcCellValue gives %q err=%q, Excel's fold gives %s", text, c08ShowCells(cells), res, errs, c08Show(spec)), 0, "agg "+hx(text))
-		}
-	}
 }
 
 func c08ShowCells(cs []c08Val) string {
@@ -1353,7 +1318,6 @@ func runC08(r *Run, rng *Rng, replay string) {
 		st.formula(r, "ev", "", w, false)
 		r.Stat("stream:witness")
 	}
-	st.aggregates(r)
 	// 2. exhaustive: every operator x every ordered pair of operand kinds (12 kinds), plus unary forms
 	for _, op := range c08Ops {
 		for i := 0; i < 12; i++ {
@@ -1414,6 +1378,8 @@ func runC08(r *Run, rng *Rng, replay string) {
 			r.Stat("stream:malformed")
 		}
 	}
+	// 6. aggregates over generated ranges (own workbooks)
+	c08AggStream(r, rng)
 	r.Samples = r.opsSample(10)
 }
 
@@ -1477,9 +1443,10 @@ func c08Replay(r *Run, path string) {
 			if t := treeOf(w); t != nil {
 				st.formula(r, "ev", "", t, false)
 			}
-		case "agg":
-			st = c08FixedWorkbook(r)
-			st.aggregates(r)
+		case "agg", "evx":
+			if t := treeOf(w); t != nil {
+				st.aggFormula(r, t)
+			}
 		case "evt":
 			for _, x := range w {
 				if strings.HasPrefix(x, "F:") {
